@@ -1,6 +1,6 @@
 ---------------------------- MODULE EcdsaBigSelf ----------------------------
 (* TLC compares the limb-tuple definitions of EcdsaBig with the native-integer definitions of EcGroup / Ecdsa on the
-   synthetic curves: same inputs, both evaluations, for every secret (Sign), for a full (r, s) grid (Verify), for
+   synthetic curves: same inputs, both evaluations, for every secret (Sign), for every owner signature, its neighbour and the boundary grid (Verify), for
    every scalar (point multiplication) and for the digest conversions of the whole digest corpus shapes.
    Run once per check (a few seconds); EcdsaTrace then uses EcdsaBig alone on the 32 built-in curves.            *)
 EXTENDS EcdsaBig, TLC
@@ -16,9 +16,14 @@ AlgSet == { "ecdsa", "gost" }
 MulAgrees(cv) == \A k \in 0..(cv.n + 1) : BMul(Big(cv), FromInt(k), BG(Big(cv))) = BigPt(N!Mul(cv, k, N!G(cv)))
 SignAgrees(cv, ds, es) == \A al \in AlgSet : \A d \in ds : \A e \in es : \A k \in 0..cv.n :
    BSign(Big(cv), al, FromInt(d), FromInt(e), FromInt(k)) = BigSig(N!Sign(cv, al, d, e, k))
-VerifyAgrees(cv, d, es, lim) == \A al \in AlgSet : \A e \in es : \A r \in 0..lim : \A s \in 0..lim :
-   LET Q == N!Mul(cv, d, N!G(cv)) IN
-   BVerify(Big(cv), al, BigPt(Q), FromInt(e), FromInt(r), FromInt(s)) = N!Verify(cv, al, Q, e, r, s)
+\* pairs: every signature of the key's owner, their neighbours (r, s+1), and the boundary grid
+VerifyAgrees(cv, d, es) == \A al \in AlgSet : \A e \in es :
+   LET Q    == N!Mul(cv, d, N!G(cv))
+       bv   == { 0, 1, 2, cv.n - 1, cv.n, cv.n + 1 }
+       sigs == { N!Sign(cv, al, d, e, k) : k \in 1..(cv.n - 1) } \ { << >> }
+       ps   == sigs \cup { << x[1], x[2] + 1 >> : x \in sigs } \cup (bv \X bv)
+   IN \A x \in ps :
+         BVerify(Big(cv), al, BigPt(Q), FromInt(e), FromInt(x[1]), FromInt(x[2])) = N!Verify(cv, al, Q, e, x[1], x[2])
 InvalidKeysAgree(cv) == \A Q \in { << >>, << cv.gx, (cv.gy + 1) % cv.p >>, << cv.gx + cv.p, cv.gy >>, << 1, 87 >>, << 13, 0 >> } :
    BValidPub(Big(cv), BigPt(Q)) = N!ValidPub(cv, Q)
 HashAgrees(cv) == \A al \in AlgSet : \A o \in { "be", "le" } :
@@ -28,7 +33,7 @@ HashAgrees(cv) == \A al \in AlgSet : \A o \in { "be", "le" } :
 
 ASSUME MulAgrees(K!E8G) /\ MulAgrees(K!E8C4)
 ASSUME SignAgrees(K!E8G, { 1, 7, 228 }, { 0, 1, 114 }) /\ SignAgrees(K!E8C4, { 5 }, { 0, 3 })
-ASSUME VerifyAgrees(K!E8G, 7, { 0, 5 }, 230) /\ VerifyAgrees(K!E8C4, 12, { 1 }, 60)
+ASSUME VerifyAgrees(K!E8G, 7, { 0, 5 }) /\ VerifyAgrees(K!E8C4, 12, { 1 })
 ASSUME InvalidKeysAgree(K!E8C4)
 ASSUME HashAgrees(K!E8G) /\ HashAgrees(K!E8C4) /\ HashAgrees(K!E13) /\ HashAgrees(K!E16M3)
 ASSUME PrintT("EcdsaBigSelf: limb-tuple definitions agree with the native ones")
